@@ -384,6 +384,9 @@ c08_cases = [
     case("n0=1 one tampered object: data tile (first windows)", "VerifC08Tamper", [1, 1, 3, 4], ["refused to load", "loaded", "signed"], Q),
     case("n0=1 one tampered object: staging bundle (first windows)", "VerifC08Tamper", [1, 1, 4, 3], ["refused to load", "loaded", "signed"], Q),
     case("n0=1 one tampered object: issuer", "VerifC08Tamper", [1, 1, 5, 24], ["loaded", "signed"], Q),
+    case("n0=3 one tampered object: hash tiles during crash recovery", "VerifC08Tamper", [3, 1, 6, 24], ["refused to load", "loaded", "signed"], Q),
+    case("n0=0 data tile and hash tile tampered consistently during crash recovery", "VerifC08Tamper", [0, 2, 7, 24], ["refused to load", "loaded", "signed"], Q),
+    case("n0=1 data tile and hash tile tampered consistently during crash recovery", "VerifC08Tamper", [1, 2, 7, 24], ["refused to load", "loaded", "signed"], Q),
     case("n0=1 one tampered object: data tile (all windows)", "VerifC08Tamper", [1, 1, 3, 24], ["refused to load", "loaded", "signed"], T),
     case("n0=1 one tampered object: staging bundle (all windows)", "VerifC08Tamper", [1, 1, 4, 24], ["refused to load", "loaded", "signed"], T),
     case("n0=3 two tampered objects: hash tiles", "VerifC08Tamper", [3, 2, 2, 24], ["refused to load", "loaded", "signed"], T),
